@@ -857,6 +857,12 @@ def history_run(s, lband, ntheta, seed, order):
         d = float(max(abs(co[k] - np.sum(np.conj(Y[k]) * g * w * dph)) for k in keys))
         if d > 1e-10 * float(np.sum(np.abs(w)) * dph):
             fails.append((pos, name, "sYlm_coefficients vs sum conj(Y_lm(angles passed)) f w dphi", d))
+        # the same numbers stored with a REAL dtype (a real-valued spin-weighted field, e.g. the real part of Psi4)
+        gre = np.ascontiguousarray(g.real)
+        cor = maths.sYlm_coefficients(s, lband, gre, TH, PH, w, dph)
+        d = float(max(abs(cor[k] - np.sum(np.conj(Y[k]) * gre * w * dph)) for k in keys))
+        if d > 1e-10 * float(np.sum(np.abs(w)) * dph):
+            fails.append((pos, name, "sYlm_coefficients of a real-dtype field vs sum conj(Y_lm) f w dphi", d))
         if name == "gauss-legendre":
             # exact quadrature: decomposition inverts synthesis, Gram matrix = identity, to round-off
             back = maths.sYlm_coefficients(s, lband, rec, TH, PH, w, dph)
